@@ -710,6 +710,11 @@ func c07Scenarios() []c07Scenario {
 				w.fail("restart after the deletion: %v", err)
 				return
 			}
+			defer func() { // the restarted instance is closed again: thousands of executions share one process
+				for _, f := range fm2.GetAllFracs() {
+					f.Suicide()
+				}
+			}()
 			get := func() List { return fm2.GetAllFracs() }
 			for _, pq := range c07Queries {
 				ids, err := listSearch(get, 2)(pq)
@@ -949,6 +954,7 @@ func c07Handle(raw json.RawMessage) any {
 		deadline = time.Now().Add(time.Duration(job.DeadlineS) * time.Second)
 	}
 	seenSig := map[string]bool{}
+	execsDone := 0
 	mk := func() []func() {
 		w, bodies, f := sc.mk()
 		world, final = w, f
@@ -980,6 +986,16 @@ func c07Handle(raw json.RawMessage) any {
 		if !deadline.IsZero() && time.Now().After(deadline) {
 			res.Capped = true
 			return false
+		}
+		// the code under test leaks a descriptor here and there (sealedFracCache.SaveCacheToDisk never closes its
+		// temporary file); thousands of executions share this process, so stop - as a cap, not a verdict - before
+		// the process runs out of descriptors
+		execsDone++
+		if execsDone%256 == 0 {
+			if ents, err := os.ReadDir("/proc/self/fd"); err == nil && len(ents) > 12000 {
+				res.Capped = true
+				return false
+			}
 		}
 		return true
 	}
@@ -1206,7 +1222,11 @@ func TestVerifC15Sched(t *testing.T) {
 				r.Cap(fmt.Sprintf("scenario %q: time budget used up after completing preemption bound %d", sc.name, completed))
 				break
 			}
-			jr, err := pool.Do(c07Job{Scenario: sc.name, Bound: b, DeadlineS: left}, &res, time.Duration(left+600)*time.Second)
+			// a fresh worker process per bound: the code under test leaks descriptors (see c07Handle), and a
+			// process that explored the lower bounds would reach the cap sooner
+			bp := vlib.NewPool("c07", 1)
+			jr, err := bp.Do(c07Job{Scenario: sc.name, Bound: b, DeadlineS: left}, &res, time.Duration(left+600)*time.Second)
+			bp.Close()
 			if err != nil {
 				panic(err)
 			}
